@@ -55,4 +55,8 @@ RULE = ("gen: shard counts from {0..300, 2^k, 2^k±1, 65535..65537, random}; non
 LEGS = [
     {"name": "shard", "harness": "shard", "model": "shard", "n_quick": 120, "n_thorough": 4000,
      "corpus": "corpus/shard", "timeout": 600, "timeout_thorough": 3000},
+    # client routing consistency (harness owned by C20): the whole clientImpl over a recording fake executor, 2..8 shards;
+    # every kind of operation with the same partition key (incl. "" and a record key) must reach shardManager.Get(pk)
+    {"name": "client-routing", "harness": "client", "model": None, "n_quick": 150, "n_thorough": 5000,
+     "args": ["-mode", "routing"], "timeout": 600, "timeout_thorough": 3000},
 ]
